@@ -115,6 +115,10 @@ FAMILY = {
     "for_call_iter": "{% for x in lst() %}{{ x }}{{ g(x) }},{% endfor %}",
     "for_items": "{% for x in items %}{{ x }}{{ g(x) }},{% endfor %}",
     "for_loopvars": "{% for x in items %}{{ loop.index }}{{ loop.index0 }}{{ loop.revindex }}{{ loop.revindex0 }}{{ loop.first }}{{ loop.last }}{{ loop.length }}{{ loop.previtem }}{{ loop.nextitem }}{{ loop.cycle('a', 'b') }}{{ loop.changed(x) }};{% endfor %}",
+    # look-ahead attributes (last, nextitem) BEFORE the length-based ones, on sized, unsized, filtered and recursive loops
+    "for_lookahead_first": "{% for x in items %}{{ loop.last }}{{ loop.length }}{{ loop.revindex }}{{ loop.revindex0 }};{% endfor %}|{% for x in items %}{{ loop.nextitem }}{{ loop.revindex0 }}{{ loop.length }};{% endfor %}|{% for x in items %}{% if loop.index == 2 %}{{ loop.last }}{{ loop.length }}{% endif %}{{ loop.revindex }};{% endfor %}",
+    "for_lookahead_filtered": "{% for x in items if x != g(2) %}{{ loop.last }}{{ loop.length }}{{ loop.revindex }};{% endfor %}|{% for x in gen3() %}{{ loop.nextitem }}{{ loop.length }}{{ loop.revindex0 }};{% endfor %}|{% for x in gen3() %}{{ loop.revindex }}{{ loop.last }};{% endfor %}",
+    "for_lookahead_recursive": "{% for n in tree recursive %}{{ loop.last }}{{ loop.length }}{{ loop.revindex }}{% if n.c %}({{ loop(n.c) }}){% endif %}{% endfor %}",
     "for_else": "{% for x in empty %}{{ x }}{% else %}E{{ f() }}{% endfor %}",
     "for_filter": "{% for x in items if x != g(2) %}{{ x }}{{ loop.length }}{% else %}E{% endfor %}",
     "for_filter_all": "{% for x in items if g(0) %}{{ x }}{% else %}E{% endfor %}",
@@ -329,6 +333,7 @@ def make_data(acalls, aiters):
         "mixed": it([Part(1, None), Part(2, "x"), Part(3, None), Part(4, "X"), Part(5, "y")]),
         "words": it(["a", "B", "A", "b", "c"]), "nested": it([[1], [2, 3]]),
         "po": PO(acalls),
+        "gen3": fn(lambda: (i for i in (7, 8, 9))),
     }
 
 
